@@ -56,6 +56,11 @@ pub const CORPUS: &[&str] = &[
     "lambda x: x\n",
     "with a as b:\n    c\n",
     "try:\n    a\nexcept B:\n    c\n",
+    "# doc\ndef f(): pass\n",
+    "# a\npass\n# b\npass\nx\n# c\npass\n",
+    "x: int = 1\ny: str = x\n",
+    "pass\nx\npass\ny\nz\npass\n",
+    "def f():\n    a\n    return a\n    pass\n    b\n    return\n",
 ];
 
 /// Larger files that contain every construct the query pool looks for.
@@ -121,7 +126,7 @@ fn gen_stmt(t: &mut Tape, depth: usize, indent: usize, in_def: bool, out: &mut S
     let k = if depth >= 4 {
         t.weighted(&[2, 5, 3, 2, 1])
     } else {
-        t.weighted(&[2, 6, 4, 2, 2, 2, 3, 2, 2, 1, 1, 1])
+        t.weighted(&[2, 6, 4, 2, 2, 2, 3, 2, 2, 1, 1, 2, 1])
     };
     match k {
         0 => out.push_str(&format!("{}pass\n", pad)),
@@ -178,7 +183,8 @@ fn gen_stmt(t: &mut Tape, depth: usize, indent: usize, in_def: bool, out: &mut S
             out.push_str(&format!("{}while {}:\n", pad, gen_expr(t, 1)));
             gen_block(t, depth + 1, indent + 1, in_def, out);
         }
-        _ => out.push_str(&format!("{}# comment é\n", pad)),
+        11 => out.push_str(&format!("{}# comment é\n", pad)),
+        _ => out.push_str(&format!("{}{}: {} = {}\n", pad, ident(t), ident(t), gen_expr(t, 0))),
     }
 }
 
